@@ -52,9 +52,9 @@ func genRelayPlan(r *rand.Rand) *ProxyPlan {
 	p.Transport = []string{"plain", "connect"}[r.IntN(2)]
 	p.DefaultAgeS = 3600
 	p.Pol = seqPolicy()
-	// keep-alive towards the origin: with "Connection: close" requests net/http's server
-	// replaces a Connection header set by the handler, and the nominated names would be lost
-	p.KeepAlive = true
+	// no keep-alive towards the origin (connection reuse is the one thing in net/http's transport
+	// whose timing the simulator does not own); responses that nominate headers in Connection are
+	// written byte-for-byte by the origin, with or without echoing the "close" it was asked for
 	rs := PRes{Host: "origin.test", Path: "/p", Wild: true}
 	rs.Size = []int{0, 10, 3000, 100000}[r.IntN(4)]
 	rs.Status = []int{200, 200, 200, 201, 203, 204, 301, 302, 307, 400, 403, 404, 410, 500, 503}[r.IntN(15)]
@@ -69,6 +69,7 @@ func genRelayPlan(r *rand.Rand) *ProxyPlan {
 		rs.Chunk = 30000
 	}
 	rs.Extra = append(pickSome(r, respE2E, 0.4), pickSome(r, respHop, 0.35)...)
+	rs.NoCloseEcho = r.IntN(2) == 0
 	if rs.Status >= 301 && rs.Status <= 307 {
 		rs.Extra = append(rs.Extra, [2]string{"Location", "http://origin.test/elsewhere?x=1"})
 	}
